@@ -227,6 +227,9 @@ def r15(ctx, lib):
 
 def r2(ctx, lib):
     b = ctx.need_body('C18.R2', 'dedupe::FsCommand::move_copy')
+    if b is not None:
+        from ..desugar import desugared
+        b = desugared(lib, b)      # `copy().and_then(|_| remove(source)).map_err(|e| remove_copy(target, e))` is the same chain of matches
     if b is None:
         return
     cps = b.calls(r'FsCommand::unsafe_copy$|^std::fs::copy$')
@@ -248,7 +251,9 @@ def r2(ctx, lib):
     # (the other legitimate place for a removal of the target is the failure edge of remove(source): C05.R3 failed-remove-cleans-target)
     rt = result_tests(b, src[0]) if src else []
     rm_err = (reachable_state(b, 0, rt, 'err') - reachable_state(b, 0, rt, 'ok')) if rt else set()
-    on_copy_err = [r for r in tgt if r.bb in err_region and r.bb not in ok_region]
+    # (one clean-up site may serve both failures: it is reached when the copy failed, and never when the copy and the removal both succeeded)
+    both_ok = reachable_state(b, 0, dict(list(ct.items()) + list(rt.items())), 'ok') if (ct and rt) else ok_region
+    on_copy_err = [r for r in tgt if r.bb in err_region and (r.bb not in ok_region or r.bb not in both_ok)]
     stray = [r for r in tgt if r not in on_copy_err and r.bb not in rm_err]
     ctx.check(bool(on_copy_err) and not stray, 'C18.R2', b.path + '|no-partial-target', (tgt[0].where() if tgt else cps[0].where()),
               'when the copy fails the incomplete target is removed',
